@@ -563,9 +563,31 @@ pub unsafe extern "C" fn read(fd: i32, buf: *mut libc::c_void, count: usize) -> 
     n as isize
 }
 
+thread_local! {
+    /// keys reserved for THIS thread (used when several parties run concurrently, so that the
+    /// binding party <-> keys does not depend on which thread asks first)
+    static THREAD_KEYS: std::cell::Cell<Option<(u64, u64)>> = const { std::cell::Cell::new(None) };
+}
+
+pub fn set_thread_keys(k0: u64, k1: u64) {
+    let _ = THREAD_KEYS.try_with(|c| c.set(Some((k0, k1))));
+}
+
 #[no_mangle]
 pub unsafe extern "C" fn getrandom(buf: *mut libc::c_void, buflen: usize, flags: libc::c_uint) -> isize {
     CALLS_GETRANDOM.fetch_add(1, Ordering::Relaxed);
+    if buflen == 16 {
+        if let Ok(Some((k0, k1))) = THREAD_KEYS.try_with(|c| c.take()) {
+            let mut bytes = [0u8; 16];
+            bytes[..8].copy_from_slice(&k0.to_ne_bytes());
+            bytes[8..].copy_from_slice(&k1.to_ne_bytes());
+            std::ptr::copy_nonoverlapping(bytes.as_ptr(), buf as *mut u8, 16);
+            let mut w = world();
+            w.keys_handed += 1;
+            w.ev(Ev { sys: b'g', idx: 1, req: 16, act: 0, ret: 16 });
+            return 16;
+        }
+    }
     {
         let mut w = world();
         if w.active && buflen == 16 {
